@@ -325,12 +325,29 @@ def r5(fx):
         micro = kw.get('micro', call.args[3] if len(call.args) > 3 else None)
         if isinstance(micro, ast.Constant) and micro.value is False:
             yield ob(f'{fi.name}: find_version(micro=False)', True, call, got='micro=False', want='eci and micro cannot both hold')
+        elif fi.key == ('encoder', 'encode'):
+            # encode is interpreted with a recording version search: it is never reached with eci and micro both set
+            from . import p04
+            it5 = Interp()
+            bad = []
+            for eci in (True, False):
+                for micro in (True, None, False):
+                    for version in (None, 'M3', 5):
+                        genv, rec = p04._encode_stub_env(fx, it5, 1)
+                        try:
+                            FuncVal(fi.node, genv, it5)('<content>', None, version, None, None, None, eci, micro, True)
+                            out = 'accepted'
+                        except PyRaise as e:
+                            out = f'raises {e.name}'
+                        fv = rec.get('find_version')
+                        if fv is not None and fv[1] and fv[2]:
+                            bad.append((eci, micro, version, 'find_version(eci and micro)'))
+                        if eci and (micro or version == 'M3') and out != 'raises ValueError':
+                            bad.append((eci, micro, version, out))
+            yield ob(f'{fi.name}: find_version call dominated by the refusal of eci with micro', not bad, call, got=bad[:3] or 'never reached with eci and micro',
+                     want='ValueError before the version search whenever eci and a Micro symbol are requested')
         else:
-            # encode: `if eci and (micro or version in MICRO_VERSIONS): raise` dominates
-            doms = nf.dominators(call, fi.node, lambda s: isinstance(s, ast.If) and any(isinstance(x, ast.Raise) for x in s.body)
-                                 and pat.match(s.test, 'eci and (micro or H__)') is not None)
-            yield ob(f'{fi.name}: find_version call dominated by the refusal of eci with micro', bool(doms), call,
-                     got=[ast.unparse(d.test) for d in doms], want='if eci and (micro or ...): raise ValueError')
+            raise Unknown(f'{fi.name} calls find_version with a non-constant micro argument: no rule for this caller')
     # mask_scores: width == height on its call chain
     ok = True
     chain = []
